@@ -184,9 +184,15 @@ func genIter(g *gen, n int, tier string, w *bufio.Writer) {
 			tag = "tx"
 		case kind < 42:
 			tag = "boundedlast" // concentrates on SeekToLast under end bounds (repaired in 8151b8c; used everywhere else too)
+		case kind < 54:
+			tag = "bigsst" // tables with many restart intervals / several blocks; targets in the gaps between stored keys
 		}
 		fmt.Fprintf(w, "# case %d %s\n", c, tag)
 		fmt.Fprintln(w, "new")
+		if tag == "bigsst" {
+			g.bigSstCase(w)
+			continue
+		}
 		var keys [][]byte
 		add := func(es []gkv) {
 			for _, e := range es {
@@ -308,6 +314,102 @@ func genIter(g *gen, n int, tier string, w *bufio.Writer) {
 				fmt.Fprintln(w, g.scanLine(keys))
 			}
 		}
+	}
+}
+
+// bigSstCase: 1-2 tables of 17-150 entries with keys key%04d at even numbers (odd numbers = absent targets between
+// neighbours, also across restart-interval and block boundaries); every third case has values of 600-2500 bytes so
+// that the table has several data blocks; an optional small memtable shadows a few of the keys.
+func (g *gen) bigSstCase(w *bufio.Writer) {
+	bigVals := g.chance(1, 3)
+	nt := 1 + g.intn(2)
+	var keys [][]byte
+	maxN := 0
+	for t := 0; t < nt; t++ {
+		n := 17 + g.intn(134)
+		if bigVals {
+			n = 17 + g.intn(50)
+		}
+		if n > maxN {
+			maxN = n
+		}
+		off := 2 * g.intn(4)
+		var es []gkv
+		for i := 0; i < n; i++ {
+			k := []byte(fmt.Sprintf("key%04d", off+2*i))
+			var v []byte
+			switch c := g.intn(20); {
+			case c == 0:
+				v = nil
+			case c == 1:
+				v = []byte{}
+			case bigVals:
+				v = bytes.Repeat([]byte{byte(0x41 + i%26)}, 600+g.intn(1900))
+			default:
+				v = g.bytesN(1 + g.intn(3))
+			}
+			es = append(es, gkv{k, v})
+			keys = append(keys, k)
+		}
+		if t == 0 && g.chance(1, 2) { // a memtable above the tables with a few of their keys
+			var ms []gkv
+			for i := 0; i < n; i += 1 + g.intn(30) {
+				ms = append(ms, gkv{es[i].k, g.iterVal()})
+			}
+			fmt.Fprintln(w, srcLine("mem", ms))
+		}
+		fmt.Fprintln(w, srcLine("sst", es))
+	}
+	tgt := func() []byte {
+		i := g.intn(2*maxN + 10)
+		switch g.intn(6) {
+		case 0: // just below / at / above a multiple of the restart interval
+			i = 2*16*(1+g.intn(1+maxN/16)) + g.pick(-3, -2, -1, 0, 1)
+			if i < 0 {
+				i = 1
+			}
+		case 1:
+			return append([]byte(fmt.Sprintf("key%04d", i)), 0)
+		}
+		return []byte(fmt.Sprintf("key%04d", i))
+	}
+	for r := 0; r < 2; r++ {
+		switch g.intn(3) {
+		case 0:
+			fmt.Fprintln(w, "build hier")
+		case 1:
+			fmt.Fprintln(w, "build factory")
+		default:
+			lo, hi := "-", "-"
+			if g.chance(2, 3) {
+				lo = hx(tgt())
+			}
+			if g.chance(2, 3) {
+				hi = hx(tgt())
+			}
+			fmt.Fprintln(w, join("build", "range", lo, hi))
+		}
+		for i, n := 0, 12+g.intn(16); i < n; i++ {
+			switch c := g.intn(100); {
+			case c < 60:
+				fmt.Fprintln(w, join("seek", hx(tgt())))
+			case c < 85:
+				fmt.Fprintln(w, "next")
+			case c < 90:
+				fmt.Fprintln(w, "last")
+			case c < 94:
+				fmt.Fprintln(w, "first")
+			default:
+				fmt.Fprintln(w, "cur")
+			}
+		}
+		if !bigVals {
+			fmt.Fprintln(w, "collect")
+		}
+	}
+	for r := 0; r < 2; r++ {
+		lo, hi := hx(tgt()), hx(tgt())
+		fmt.Fprintln(w, join("scan", "pre=-", "suf=-", "start="+lo, "end="+hi, fmt.Sprintf("limit=%d", g.pick(0, 0, 3, 40))))
 	}
 }
 
